@@ -206,7 +206,7 @@ H("c07_bc_view_o1", L, "C07", ["C07", "C01"], "quick",
   "broadcast in-place viewer: try_recv_view preempted everywhere by the last sender's final send and drop", "N=2, budget 2")
 H("c07_mp_view_o1", L, "C07", ["C07", "C01"], "quick",
   "mpmc in-place viewer: try_recv_view preempted everywhere by the last sender's final send and drop", "N=2, budget 2")
-ADDRULES = queue_rules(retry=4, streams=3, extra=[(r'ReadCursor::add_stream', 4), (r'ReadCursor::remove_reader', 4), (r'Vec.*clone|to_vec|retain|extend|spec_', 5)])
+ADDRULES = queue_rules(retry=3, streams=3, extra=[(r'ReadCursor::add_stream', 3), (r'ReadCursor::remove_reader', 3), (r'Vec.*clone|to_vec|retain|extend|spec_', 5)])
 H("c10_bc_sole_o1", L, "C10", ["C10", "C01", "C02", "C03", "C06"], "quick",
   "broadcast: add_stream (then a receive) on the sole handle of the parent stream, preempted everywhere by the producer's sends",
   "N=2, prefix <=2/<=2, budget 2", rules=ADDRULES)
@@ -334,7 +334,7 @@ for n, w, t in (("c14_bc_poll_vs_send", "broadcast spins(0,0): stream task polls
     H(n, FU, "C14", ["C14", "C15"], t, w + "; parked-and-never-notified oracle at quiescence", "depth 1, budget 1-3, up to 2 ops per site", rules=FUTRULES)
 for n, w, t in (("c15_bc_hist", "broadcast N=1 spins(0,0)", "quick"), ("c15_mp_hist", "mpmc N=2 spins(0,0)", "quick"),
                 ("c15_bc10_hist", "broadcast N=2 spins(1,0)", "thorough")):
-    H(n, FU, "C15", ["C15", "C09"], t, "every sub-sequence of the 10-call skeleton start_send start_send try_recv start_send poll try_send poll_complete drop_tx poll poll inside a task vs the model: " + w,
+    H(n, FU, "C15", ["C15", "C09"], t, "every sub-sequence of the 10-call skeleton start_send start_send try_recv start_send try_send poll_complete poll poll drop_tx poll (after a concrete warm-up that fills the ring, parks once and drains) inside a task vs the model: " + w,
       "10 steps, sequential", rules=FUTRULES)
 for n, r, t in (("c17_churn_r2", 2, "thorough"), ("c17_churn_r3", 3, "thorough")):
     H(n, M, "C17", ["C17", "C16"], t,
@@ -392,7 +392,7 @@ for n in ("c08_mp_blk00_send", "c08_bc_blk00_senddrop", "c08_mp_blk00_drop", "c0
 
 H("c15_bc_fresh_poll", FU, "C15", ["C15", "C14"], "quick",
   "broadcast futures, FRESH never-wrapped empty queue: Stream::poll must return NotReady (or the value once the sink task sent it) - it must not spin inside the call",
-  "N=2, budget 1; the loop of Stream::poll has bound 4 with an unwinding assertion", rules=FUTRULES, unwind_violation="C15")
+  "N=2, sequential (the spin needs no interference); the loop of Stream::poll has bound 4 with an unwinding assertion", rules=FUTRULES, unwind_violation="C15")
 H("c10_bc_addadd_o1", L, "C10", ["C10", "C01", "C03", "C06"], "quick",
   "broadcast: add_stream on one handle preempted everywhere by add_stream on a second handle of the same stream and a send (two additions racing on the stream list); all three streams must keep every value and limit the sender",
   "N=2, budget 2", rules=ADDRULES)
